@@ -219,7 +219,7 @@ theorem stoppedWaitFor_j_succ {fuel : Nat} (hsei : JSei (scriptExecuteInternal f
               have hvi := hidle th hf hw'
               simp only [hvi, beq_self_eq_true, if_true]
               have i1 : Inv [] (t :: W) none (cancelEvents s t) := cancelEvents_inv h t
-              exact hsei X W _ t th i1 hf hvm (j.congr rfl rfl rfl)
+              exact hsei X W _ t th i1 hf hvm (cancelEvents_jr X s t j)
             · exact Ok.pure (((cancelEvents_jr X s t).trans
                 (startTiming_jr (jqAll fuel).stp X (cancelEvents_ninv h.n t) t)) j)
           · exact Ok.pure (cancelEvents_jr X s t j)
@@ -340,8 +340,36 @@ theorem exec_j_succ {fuel : Nat} (jh : JHx fuel) : JEx (exec (fuel + 1)) := by
       | none => exact Ok.pure j
       | some c =>
         have hc100 : 100 ≤ c := h.n.cur c hc
+        have hct : c = t := by
+          rcases hcur with e | e
+          · rw [hc] at e; exact Option.some.inj e
+          · rw [hc] at e; cases e
+        subst hct
         simp only
-        exact Ok.pure ((regWait_jr fuel X h.n o n c hc100 (Or.inl ho) j).congr rfl rfl rfl)
+        have j1 := regWait_jr fuel X h.n o n c hc100 (Or.inl ho) j
+        refine (regWait_inv (fuel := fuel) (some c) o n (h.toTop c) (fun _ => ⟨th0, r.find, r.vm, r.hasVM⟩)
+          (objAlive_alive h.n hoa') (Or.inl ho) (Or.inl rfl)).bind (postEvent_pres _ _ _) (fun p => ?_)
+        obtain ⟨p1, _, p3, _⟩ := p
+        -- the waiting thread is a record with a live VM
+        obtain ⟨thc, hfc, hwc⟩ : ∃ th, thFind (regWait (stop fuel) s o n c).threads c = some th ∧ th.ts = .waiting := by
+          rcases p1.lnk.linkC c p3 with m | m
+          · cases m
+          · exact m
+        have rc := p1.th c thc hfc
+        have hvc : thc.vm ≠ .destroyed := by
+          intro e
+          have := rc.f1 (rc.f5 e)
+          rw [hwc] at this; cases this
+        refine Ok.pure ⟨j1.a, j1.b, j1.c, j1.d, ?_⟩
+        intro ev he
+        have he' : ev ∈ (regWait (stop fuel) s o n c).events.takeWhile (fun e => e.2 ≤ (regWait (stop fuel) s o n c).clock + ms) ++
+            (c, (regWait (stop fuel) s o n c).clock + ms) ::
+              (regWait (stop fuel) s o n c).events.dropWhile (fun e => e.2 ≤ (regWait (stop fuel) s o n c).clock + ms) := he
+        rcases List.mem_append.1 he' with hm | hm
+        · exact j1.e ev ((List.takeWhile_sublist _).subset hm)
+        · rcases List.mem_cons.1 hm with hm | hm
+          · subst hm; exact ⟨thc, hfc, hvc⟩
+          · exact j1.e ev ((List.dropWhile_sublist _).subset hm)
   | notify o n =>
     rw [exec_notify]
     split
